@@ -82,6 +82,9 @@ fn compare(rc: &ReadCase, u: &RTrace, buffered: &[u64], st: &mut Stats) -> Resul
     let ui = u.ok_prefix();
     let bi = b.ok_prefix();
     let fb = flatten_off(&bi);
+    if b.rstats.hard > 0 {
+        st.inc("fault_hard_delivered_while_buffering");
+    }
     let u_clean = matches!(u.evs.last(), Some(Ev::None)) && u.first_error().is_none();
     let b_clean = matches!(b.evs.last(), Some(Ev::None)) && b.first_error().is_none();
     let fulls = bi.iter().filter(|(t, _)| t.is_full()).count();
@@ -201,10 +204,17 @@ impl Check for C08 {
             }
         }
         let mut rc = ReadCase { spec, input: Arc::new(gi.bytes), cfg, script, driver: Driver::UntilEnd { extra: 0 }, class: gi.class };
+        // source-fault sub-batch (one case in eight): one read fails hard at a drawn place in the stream, for the flat and
+        // the buffered parse alike (the fault is tied to the stream offset, not to a call count, so that it does not
+        // matter how either parse batches its reads). The flat parse ends in that read error; so must the buffered one.
+        if rng.chance(1, 8) && rc.input.len() > 1 {
+            let at = rng.range(1, rc.input.len() - 1);
+            rc.script.pos_faults.push((at, io::Fault::Hard(rng.below(4) as u8)));
+        }
         // streaming sub-batch (one case in eight): the source reports a temporary end of file at tag boundaries
         // while EOF closing is off, and the caller switches closing on once the source is really exhausted (as
         // the async wrapper does): buffering that is interrupted and resumed must roll up the same children
-        if rng.chance(1, 8) && !rc.input.is_empty() {
+        if rc.script.pos_faults.is_empty() && rng.chance(1, 8) && !rc.input.is_empty() {
             let unb = IterCfg { buffered: vec![], eof_end: false, capacity: None, ..rc.cfg.clone() };
             let bounds: Vec<usize> = crate::harness::slice_run(&rc.spec, &rc.input, &unb).ok_prefix().iter().filter(|(t, o)| !t.is_end() && *o > 0).map(|(_, o)| *o).collect();
             if !bounds.is_empty() {
@@ -231,7 +241,9 @@ impl Check for C08 {
             // temporary EOF is in scope only at tag boundaries (this matters for shrunk cases)
             let unb = IterCfg { buffered: vec![], eof_end: false, capacity: None, ..c.rc.cfg.clone() };
             let bounds: Vec<usize> = crate::harness::slice_run(&c.rc.spec, &c.rc.input, &unb).ok_prefix().iter().filter(|(t, o)| !t.is_end() && *o > 0).map(|(_, o)| *o).collect();
-            if c.rc.script.pauses.iter().any(|p| !bounds.contains(p)) {
+            // (and a fault tied to a stream offset surfaces when the read-ahead reaches it, which a paused schedule
+            // changes: the two sub-batches are kept apart)
+            if c.rc.script.pauses.iter().any(|p| !bounds.contains(p)) || !c.rc.script.pos_faults.is_empty() {
                 st.inc("out_of_scope");
                 return Ok(ExecOk { nontrivial: false });
             }
@@ -306,12 +318,12 @@ impl Check for C08 {
         v
     }
     fn rule(&self) -> &'static str {
-        "One case = specification (global and nested-in-themselves masters allowed) + bytes (valid / truncated / byte-faulted; known- and unknown-size encodings) + a buffered-id set (drawn, or ALL non-empty subsets of the master ids occurring in the input when there are at most 6) + tolerance set + delivery schedule; the buffered parse, with every Full replaced by Start/children/End, is compared with the unbuffered parse of the same bytes (equal and clean, or a prefix followed by an error), including all observable offsets. One case in eight is a streaming one: EOF closing off, temporary end-of-file reports at tag boundaries (also inside a master being buffered), the caller polling on and switching closing on once the source is exhausted; reference = the plain unbuffered parse. Non-trivial: at least one Full item was emitted. Distinct: FNV-1a fingerprint of bytes + configuration + schedule."
+        "One case = specification (global and nested-in-themselves masters allowed) + bytes (valid / truncated / byte-faulted; known- and unknown-size encodings) + a buffered-id set (drawn, or ALL non-empty subsets of the master ids occurring in the input when there are at most 6) + tolerance set + delivery schedule; the buffered parse, with every Full replaced by Start/children/End, is compared with the unbuffered parse of the same bytes (equal and clean, or a prefix followed by an error), including all observable offsets. One case in eight is a streaming one: EOF closing off, temporary end-of-file reports at tag boundaries (also inside a master being buffered), the caller polling on and switching closing on once the source is exhausted; reference = the plain unbuffered parse. Another case in eight has one read fail hard at a drawn stream offset, for both parses alike. Non-trivial: at least one Full item was emitted. Distinct: FNV-1a fingerprint of bytes + configuration + schedule."
     }
     fn assumptions(&self) -> Vec<&'static str> {
         vec!["default end-of-stream closing, as the property does not range over that switch", "both runs use the same delivery schedule; schedule dependence as such is C04's subject"]
     }
     fn expected_probes(&self) -> Vec<&'static str> {
-        vec!["probe_full_items", "probe_nested_full", "probe_error_ending", "probe_error_inside_buffered_master", "sweeps", "streaming_runs"]
+        vec!["probe_full_items", "probe_nested_full", "probe_error_ending", "probe_error_inside_buffered_master", "sweeps", "streaming_runs", "fault_hard_delivered_while_buffering"]
     }
 }
